@@ -46,6 +46,7 @@ type zooOpts struct {
 	sizes         []int // read chunk sizes; nil = bytes.Reader
 	fail          bool  // reader ends with an injected error instead of io.EOF
 	direct        bool
+	listener      bool // htmljsonld: a nested error listener is installed
 	itemtypeVocab bool // Microdata: property names relative to the item type, as the combined HTML decoder configures it
 }
 
@@ -96,20 +97,50 @@ func zooNew(name string, data []byte, o zooOpts) (zooIter, error) {
 	switch name {
 	case "ntriples":
 		c := ntriples.DecoderConfig{}
+		var more []ntriples.DecoderOption // options given as several values, in either order, compose
 		if o.offsets {
-			c = c.SetCaptureTextOffsets(true).SetInitialTextOffset(o.init)
+			switch len(data) % 3 {
+			case 0:
+				c = c.SetCaptureTextOffsets(true).SetInitialTextOffset(o.init)
+			case 1:
+				c = c.SetInitialTextOffset(o.init)
+				more = append(more, ntriples.DecoderConfig{}.SetCaptureTextOffsets(true))
+			default:
+				c = c.SetCaptureTextOffsets(true)
+				more = append(more, ntriples.DecoderConfig{}.SetInitialTextOffset(o.init))
+			}
 		}
-		return ntriples.NewDecoder(rd, c)
+		return ntriples.NewDecoder(rd, append([]ntriples.DecoderOption{c}, more...)...)
 	case "nquads":
 		c := nquads.DecoderConfig{}
+		var more []nquads.DecoderOption // options given as several values, in either order, compose
 		if o.offsets {
-			c = c.SetCaptureTextOffsets(true).SetInitialTextOffset(o.init)
+			switch len(data) % 3 {
+			case 0:
+				c = c.SetCaptureTextOffsets(true).SetInitialTextOffset(o.init)
+			case 1:
+				c = c.SetInitialTextOffset(o.init)
+				more = append(more, nquads.DecoderConfig{}.SetCaptureTextOffsets(true))
+			default:
+				c = c.SetCaptureTextOffsets(true)
+				more = append(more, nquads.DecoderConfig{}.SetInitialTextOffset(o.init))
+			}
 		}
-		return nquads.NewDecoder(rd, c)
+		return nquads.NewDecoder(rd, append([]nquads.DecoderOption{c}, more...)...)
 	case "turtle":
 		c := turtle.DecoderConfig{}
+		var more []turtle.DecoderOption // options given as several values, in either order, compose
 		if o.offsets {
-			c = c.SetCaptureTextOffsets(true).SetInitialTextOffset(o.init)
+			switch len(data) % 3 {
+			case 0:
+				c = c.SetCaptureTextOffsets(true).SetInitialTextOffset(o.init)
+			case 1:
+				c = c.SetInitialTextOffset(o.init)
+				more = append(more, turtle.DecoderConfig{}.SetCaptureTextOffsets(true))
+			default:
+				c = c.SetCaptureTextOffsets(true)
+				more = append(more, turtle.DecoderConfig{}.SetInitialTextOffset(o.init))
+			}
 		}
 		if o.base != "" {
 			c = c.SetDefaultBase(o.base)
@@ -117,11 +148,21 @@ func zooNew(name string, data []byte, o zooOpts) (zooIter, error) {
 		if o.prefixes != nil {
 			c = c.SetDefaultPrefixes(o.prefixes)
 		}
-		return turtle.NewDecoder(rd, c)
+		return turtle.NewDecoder(rd, append([]turtle.DecoderOption{c}, more...)...)
 	case "trig":
 		c := trig.DecoderConfig{}
+		var more []trig.DecoderOption // options given as several values, in either order, compose
 		if o.offsets {
-			c = c.SetCaptureTextOffsets(true).SetInitialTextOffset(o.init)
+			switch len(data) % 3 {
+			case 0:
+				c = c.SetCaptureTextOffsets(true).SetInitialTextOffset(o.init)
+			case 1:
+				c = c.SetInitialTextOffset(o.init)
+				more = append(more, trig.DecoderConfig{}.SetCaptureTextOffsets(true))
+			default:
+				c = c.SetCaptureTextOffsets(true)
+				more = append(more, trig.DecoderConfig{}.SetInitialTextOffset(o.init))
+			}
 		}
 		if o.base != "" {
 			c = c.SetDefaultBase(o.base)
@@ -129,7 +170,7 @@ func zooNew(name string, data []byte, o zooOpts) (zooIter, error) {
 		if o.prefixes != nil {
 			c = c.SetDefaultPrefixes(o.prefixes)
 		}
-		return trig.NewDecoder(rd, c)
+		return trig.NewDecoder(rd, append([]trig.DecoderOption{c}, more...)...)
 	case "rdfxml":
 		c := rdfxml.DecoderConfig{}
 		if o.offsets {
@@ -184,6 +225,10 @@ func zooNew(name string, data []byte, o zooOpts) (zooIter, error) {
 			}
 			return htmlmicrodata.NewDecoder(doc)
 		default:
+			if o.listener {
+				// script errors go to a listener and the iteration goes on with the next script
+				return htmljsonld.NewDecoder(doc, htmljsonld.DecoderConfig{}.SetNestedErrorListener(func(error) {}))
+			}
 			return htmljsonld.NewDecoder(doc)
 		}
 	case "htmldefaults":
